@@ -60,6 +60,19 @@ def propsClosedB (m : Dict Str) (d : Dict PVal) : Bool := d.all fun kv =>
   | .pat s => (phNames s).all fun n => (dget m n).isSome
   | .fn _ => true
 
+/-- the macro is defined, and so is every macro its body uses, and so on, to depth `fuel` (no cycle on the way) -/
+def definedDeep (m : Dict Str) : Nat → Str → Bool
+  | 0, _ => false
+  | f + 1, k => match dget m k with
+      | none => false
+      | some body => (phNames body).all (definedDeep m f)
+
+/-- every macro a property definition uses is defined to depth `fuel` -/
+def propsDeepB (m : Dict Str) (fuel : Nat) (d : Dict PVal) : Bool := d.all fun kv =>
+  match kv.2 with
+  | .pat s => (phNames s).all (definedDeep m fuel)
+  | .fn _ => true
+
 /-- the number of passes of the `while` loop of line 190 (`re.sub` calls), same shape as `expandValue` -/
 def passCount (m : Dict Str) : Nat → Str → Except Exc Nat
   | 0, v => if hasPh v then .error .diverges else .ok 0
